@@ -112,6 +112,88 @@ for _pl, _fn in FINDERS:
     _mk_harness(_pl, _fn)
 
 
+# ---- perihelion / aphelion (and the node passages built on them): the orbit count tracks the calendar
+PERI = ["Mercury", "Venus", "Earth", "Mars", "Jupiter", "Saturn", "Uranus"]
+SIDEREAL = {"Mercury": 87.969, "Venus": 224.701, "Earth": 365.256, "Mars": 686.980, "Jupiter": 4332.59, "Saturn": 10759.22,
+            "Uranus": 30685.4, "Neptune": 60189.0}
+
+
+def _peri_cuts(pl, perihelion):
+    import z3
+    from pyvc.interp import PathStop
+    qn = "%s.perihelion_aphelion" % pl
+
+    def cut_x(it, frame):
+        it.info["x"] = Num.of(frame.locals["k"])
+        return True
+
+    def cut_k(it, frame):
+        """k = round(x) resp. round(x + 1/2) - 1/2: continue with ANY admissible count K within 1/2 of x"""
+        x, k = it.info["x"], Num.of(frame.locals["k"])
+        t = k if perihelion else k - Fraction(1, 2)
+        it.vc("%s: k is %s within 1/2 of x = rate * (year - Y0)" % (qn, "an integer" if perihelion else "an integer plus 1/2"),
+              and_(t == floor_(t), k - x <= Fraction(1, 2), x - k <= Fraction(1, 2)))
+        K = it.fresh("K", "real")
+        it.assume(and_(K - x <= Fraction(1, 2), x - K <= Fraction(1, 2)))
+        it.info["K"] = K
+        return (True, K.as_float())
+
+    def cut_jde(it, frame):
+        x, K = it.info["x"], it.info["K"]
+        jde = Num.of(frame.locals["jde"]).real()
+
+        def at(v):
+            return Num("float", None, None, z3.simplify(z3.substitute(jde, (K.real(), Num.of(v).real()))))
+        P0 = at(Fraction(1)) - at(Fraction(0))
+        P0f = Fraction(str(z3.simplify(P0.real()).as_fraction())) if hasattr(z3.simplify(P0.real()), "as_fraction") else None
+        it.info["P0"] = P0f
+        y = Num.real_var("y")
+        mean = at(x)                       # the mean instant for the real-valued count
+        jul = Num.of(Fraction("365.25")) * (y - 2000) + Fraction("2451557.5")
+        greg = Num.of(Fraction("365.2425")) * (y - 2000) + Fraction("2451544.5")
+        tol = P0 * Fraction(3, 10)
+        it.vc("%s: mean instant within 0.3 P of the calendar date of the fractional year (Julian calendar, -2000..1582)" % qn,
+              implies(y <= 1582, and_(mean - jul <= tol, jul - mean <= tol)))
+        it.vc("%s: mean instant within 0.3 P of the calendar date of the fractional year (Gregorian calendar, 1582..4000)" % qn,
+              implies(y >= 1582, and_(mean - greg <= tol, greg - mean <= tol)))
+        step = at(K + 1) - at(K)
+        it.vc("%s: consecutive counts give mean instants 0.9 P .. 1.1 P apart (none skipped or repeated, never backwards)" % qn,
+              and_(step >= P0 * Fraction(9, 10), step <= P0 * Fraction(11, 10)))
+        it.vc("%s: P > 0" % qn, P0 > 0)
+        raise PathStop("mean instant examined")
+    return {(qn, "k", 1): cut_x, (qn, "k", 2): cut_k, (qn, "jde", 1): cut_jde}
+
+
+def _mk_peri(pl, perihelion):
+    @P.harness("perihelion_aphelion/%s[%s]" % (pl, "perihelion" if perihelion else "aphelion"), contracts=_contracts,
+               cuts=lambda: _peri_cuts(pl, perihelion), functions=["pymeeus.%s:%s.perihelion_aphelion" % (pl, pl)],
+               crosscheck=0, timeout=30)
+    def h(ctx):
+        """the mean instant A + k (P + q k), taken at the real-valued count x(y) = rate (y - Y0), stays within 0.3 P of the
+        calendar date of the fractional year y over -2000..4000, and grows by 0.9..1.1 P per unit of k: with |k - x| <= 1/2
+        the chosen passage is within 0.8 P of the query, consecutive counts are one period apart and the count never
+        decreases as the query advances.  (The refinement of the mean instant on the VSOP87 radius vector is bounded.)"""
+        if ctx.native:
+            e = ctx.obj("Epoch")
+            q = ctx.real("jde", 990600, 3182000)
+            ctx.setfield(e, "_jde", q)
+            r = ctx.call("pymeeus.%s:%s.perihelion_aphelion" % (pl, pl), e, perihelion)
+            ctx.vc("result within one (sidereal) period of the query", abs(r.jde() - q) <= SIDEREAL[pl])
+            return
+        e = ctx.obj("Epoch")
+        ctx.setfield(e, "_jde", ctx.real("jde", 990600, 3182000))
+        y = Num.real_var("y")
+        ctx.assume(and_(y >= -2000, y <= 4000))
+        ctx.call("pymeeus.%s:%s.perihelion_aphelion" % (pl, pl), e, perihelion)
+        ctx.vc("the mean instant was examined (path must stop inside)", False)
+    return h
+
+
+for _pl in PERI:
+    _mk_peri(_pl, True)
+    _mk_peri(_pl, False)
+
+
 @P.harness("lemma/round-is-monotone-and-onto", crosscheck=0)
 def h_round(ctx):
     """k(y) = round(x(y)) is non-decreasing in y and takes every integer value (x is affine and increasing in y)"""
@@ -140,7 +222,7 @@ def b_events(rng, tier):
     from pymeeus.Epoch import Epoch
     from pymeeus.Sun import Sun
     from pymeeus.Earth import Earth
-    eras = (-1990.0, -500.0, 1000.0, 1990.0, 2500.0, 3900.0) if tier == "thorough" else (-1000.0, 1990.0, 3500.0)
+    eras = (-1990.0, -500.0, 1000.0, 1990.0, 2500.0, 3900.0) if tier == "thorough" else (-1990.0, 500.0, 1990.0, 3900.0)
     per_era = 40 if tier == "thorough" else 6
 
     def jd_of_year(y):
@@ -212,6 +294,40 @@ def b_events(rng, tier):
     # perihelion / aphelion and node passages
     for pl in ["Mercury", "Venus", "Earth", "Mars", "Jupiter", "Saturn", "Uranus"]:
         cls = getattr(importlib.import_module("pymeeus." + pl), pl)
+        per = SIDEREAL[pl]
+        # selection: queries 1/5 period apart; never backwards, one period apart, within one period of the query
+        for era in eras:
+            for variant in (True, False):
+                for which in ("perihelion_aphelion", "passage_nodes"):
+                    if which == "passage_nodes" and (pl == "Earth" or not hasattr(cls, "passage_nodes")):
+                        continue
+                    prev = None
+                    q0 = min(max(jd_of_year(era) + rng.uniform(0, per), jd_of_year(-1999.0)), jd_of_year(3999.0) - 2.2 * per)
+                    for i in range(11 if tier == "thorough" else 6):
+                        q = q0 + i * per / 5.0
+                        if not (jd_of_year(-2000.0) <= q <= jd_of_year(4000.0)):
+                            continue
+                        ok, det = True, None
+                        try:
+                            out = getattr(cls, which)(Epoch(q), variant)
+                            ev = (out[0] if isinstance(out, tuple) else out).jde()
+                            # results closer than the accuracy of the series (1 d Mercury-Mars, 2 d beyond) are the same event
+                            acc = 1.0 if pl in ("Mercury", "Venus", "Earth", "Mars") else 2.0
+                            env = ""
+                            if abs(ev - q) > per:
+                                ok, det, env = False, ("farther than one period from the query", ev - q), "beyond-known-envelope"
+                            elif prev is not None and ev < prev - acc:
+                                ok, det = False, ("result moved backwards", prev, ev)
+                                # known finding (outer planets' node passages from two-body elements taken at the query epoch):
+                                # the instant reported for one and the same passage drifts with the query
+                                env = ("inside-known-envelope" if which == "passage_nodes" and prev - ev < 0.001 * per
+                                       else "beyond-known-envelope")
+                            elif prev is not None and ev > prev + acc and not (0.9 * per <= ev - prev <= 1.1 * per):
+                                ok, det, env = False, ("consecutive results not one period apart", ev - prev), "beyond-known-envelope"
+                            prev = ev
+                        except Exception as ex:
+                            ok, det, env = False, repr(ex), "beyond-known-envelope"
+                        yield ((pl, which, variant, round(q, 2), env, "selection"), ok, det)
         for era in eras:
             q = Epoch(jd_of_year(era) + rng.uniform(0, 300))
             for peri in (True, False):
